@@ -80,6 +80,12 @@ theorem C05_first_raise_installs (rf : Bool) (s : State) (hc : s.cell = none) :
     cases op with
     | det e => exact absurd rfl (hop e)
     | bidi r => exact absurd rfl (hop' r)
+    | shut =>
+      simp only [step, dstep]; split
+      · unfold checkErr; split
+        · exact hc
+        · simp [hc]
+      · exact hc
     | poll => simp only [step, dstep]; split <;> simp_all
     | park => simp only [step, dstep]; split <;> simp_all
     | pce =>
@@ -415,6 +421,97 @@ theorem C05_shutdown_reports_error (rf : Bool) (todo : List (List Err)) (sched :
       rw [hc] at hc'; cases hc'
     | none => simp [H3.Setup.checkError, hh, hc]
 
+/-- **The executable `shutdown` step is that check.**  `DOp.shut` — the label `D.shut` of engine
+    `cell`, where the harness calls the real `shutdown()` (modes `acc`/`clo`/`idl`) resp. the real
+    `check_connection_error` (mode `pce`) — changes the shared state exactly as `H3.Setup.checkError`
+    says, in *every* state in which the driver is not inside a poll (reachable or not): same cell,
+    same `handled`, same close calls, the answer is what the call returns, nothing else that other
+    tasks can see (tasks, waker, notification) is touched.  So `C05_shutdown_reports_error` is a
+    statement about the step the correspondence run executes. -/
+theorem C05_shutdown_step_is_the_check (rf : Bool) (s : State) (hp : s.pc = .idle) :
+    let s' := step rf s (.drv .shut)
+    s'.cell = (H3.Setup.checkError s).1.cell ∧ s'.handled = (H3.Setup.checkError s).1.handled ∧
+    s'.closes = (H3.Setup.checkError s).1.closes ∧
+    s'.drets = (H3.Setup.checkError s).2.toList ++ s.drets ∧
+    s'.tasks = s.tasks ∧ s'.waker = s.waker ∧ s'.woken = s.woken ∧ s'.pc = .idle ∧
+    ((H3.Setup.checkError s).2 = none → s' = s) := by
+  simp only [step, dstep, hp, checkErr, H3.Setup.checkError]
+  cases hh : s.handled with
+  | some h => simp [retHandled]
+  | none =>
+    cases hc : s.cell with
+    | some e => simp [observe, hc]
+    | none => simp [hp]
+
+/-- a driver that shares the error state with nobody: no handle exists, so whatever is in the cell
+    was put there by the driver itself and has been handled -/
+theorem cell_handled_alone (rf : Bool) (sched : List TaskId) :
+    let s := run rf (init []) sched
+    s.tasks = [] ∧ (s.cell = none ∨ s.handled ≠ none) := by
+  suffices h : ∀ s : State, (s.tasks = [] ∧ (s.cell = none ∨ s.handled ≠ none)) →
+      ∀ l, ((step rf s l).tasks = [] ∧ ((step rf s l).cell = none ∨ (step rf s l).handled ≠ none)) by
+    intro s
+    have : ∀ (sched : List TaskId) (s0 : State), (s0.tasks = [] ∧ (s0.cell = none ∨ s0.handled ≠ none)) →
+        ((run rf s0 sched).tasks = [] ∧ ((run rf s0 sched).cell = none ∨ (run rf s0 sched).handled ≠ none)) := by
+      intro sched
+      induction sched with
+      | nil => intro s0 h0; exact h0
+      | cons l ls ih => intro s0 h0; exact ih _ (h s0 h0 l)
+    exact this sched (init []) ⟨rfl, Or.inl rfl⟩
+  intro s ⟨ht, hch⟩ l
+  cases l with
+  | str i => simp [step, sstep, ht]; exact hch
+  | drv op =>
+    cases op with
+    | poll => simp only [step, dstep]; split <;> simp_all
+    | park => simp only [step, dstep]; split <;> simp_all
+    | det e =>
+      simp only [step, dstep]
+      split <;> first | exact ⟨ht, hch⟩ | (unfold detect; split <;> simp_all [retHandled, observe])
+    | bidi r =>
+      simp only [step, dstep]
+      split <;> first | exact ⟨ht, hch⟩ |
+        (unfold clientTail; cases r <;> simp only [] <;> unfold detect <;>
+          (repeat' split) <;> simp_all [retHandled, observe])
+    | shut =>
+      simp only [step, dstep]
+      split <;> first | exact ⟨ht, hch⟩ | (unfold checkErr; (repeat' split) <;> simp_all [retHandled, observe])
+    | pce =>
+      simp only [step, dstep]
+      split <;> first | exact ⟨ht, hch⟩ |
+        (unfold pceFirst; (repeat' split) <;> simp_all [retHandled, observe, reg, chk] <;> (repeat' split) <;> simp_all) |
+        (unfold pceSecond; (repeat' split) <;> simp_all [retHandled, observe, reg, chk] <;> (repeat' split) <;> simp_all)
+
+/-- **`shutdownPlan` (engine `flt5`) decides with the same check.**  The whole-connection model of
+    `flt` / `flt5` keeps only the driver's part of the error state (`H3.Setup.Drv`: `handled`, close
+    codes) and lets `shutdownPlan` look at `handled` alone.  That is `check_connection_error` on every
+    state such a connection can reach: with no request handle on the shared state (any driver calls,
+    any detections, either order) the cell is empty or handled, so the plan made from the shared
+    state's check (`shutdownPlanShared`: cell AND handled — what engine `hnd5` uses, where real
+    request handles write the cell) is the plan made from `handled`. -/
+theorem C05_shutdownPlan_is_the_check (rf : Bool) (sched : List TaskId) (keeps : Bool) :
+    let s := run rf (init []) sched
+    H3.Setup.shutdownPlanShared s keeps =
+      H3.Setup.shutdownPlan { handled := s.handled, closes := s.closes.map (·.1) } keeps := by
+  intro s
+  have h := (cell_handled_alone rf sched).2
+  simp only [H3.Setup.shutdownPlanShared, H3.Setup.shutdownPlan, H3.Setup.checkError]
+  cases hh : s.handled with
+  | some x => rfl
+  | none =>
+    rcases h with h | h
+    · have hc : s.cell = none := h
+      simp [hc]
+    · exact absurd hh h
+
+-- a handle has stored, the driver has not looked: the shared check reports, `handled` alone would not
+example :
+    let s := run true (init [[.internal 261 1]]) [.str 0, .str 0]
+    H3.Setup.shutdownPlanShared s false = .report (.localApp 261 1) ∧
+    H3.Setup.shutdownPlan { handled := s.handled, closes := [] } false = .write ∧
+    (step true s (.drv .shut)).drets = [.localApp 261 1] ∧ (step true s (.drv .shut)).closes = [(261, 1)] := by
+  decide
+
 /-- **… and then does nothing else.**  Once the driver has handled an error `h`, `shutdown` answers
     `h` whatever GOAWAY was or was not sent before and whatever the transport would answer: it
     decides `report h` before it looks at `sent_closing` or touches the control stream — no GOAWAY
@@ -425,9 +522,10 @@ theorem C05_shutdown_after_error_writes_nothing (d : H3.Setup.Drv) (h : CErr) (k
     H3.Setup.shutdownPlan d keeps = .report h ∧ H3.Setup.shutdownEntry d keeps w = (d, some h) ∧
     (∀ d' : H3.Setup.Drv, d'.handled = none →
       H3.Setup.shutdownPlan d' true = .nothing ∧ H3.Setup.shutdownPlan d' false = .write) := by
-  refine ⟨by simp [H3.Setup.shutdownPlan, hd], by simp [H3.Setup.shutdownEntry, H3.Setup.shutdownPlan, hd], ?_⟩
+  refine ⟨by simp [H3.Setup.shutdownPlan, H3.Setup.shutdownPlanOf, hd],
+    by simp [H3.Setup.shutdownEntry, H3.Setup.shutdownPlan, H3.Setup.shutdownPlanOf, hd], ?_⟩
   intro d' hd'
-  simp [H3.Setup.shutdownPlan, hd']
+  simp [H3.Setup.shutdownPlan, H3.Setup.shutdownPlanOf, hd']
 
 -- the D-05s witnesses on the models, now reporting the error: a handle stored a timeout, `accept`
 -- has not looked yet — `shutdown` reports it (nothing to close); h3 closed with H3_FRAME_UNEXPECTED
